@@ -263,6 +263,15 @@ public:
   /// \brief Stop I/O thread and release resources.
   void stop() override
   {
+    // Serialize concurrent callers: the loser of the CAS below must not return
+    // while the winner is still joining the I/O thread, or callbacks would keep
+    // running after its stop() has returned. (A call made on the I/O thread
+    // itself, from inside a callback, never waits: it would block the join.)
+    std::unique_lock<std::mutex> stopLock(_stopMutex, std::defer_lock);
+    if (std::this_thread::get_id() != _loop.get_id())
+    {
+      stopLock.lock();
+    }
     bool exp = true;
     if (!_running.compare_exchange_strong(exp, false))
     {
@@ -2805,6 +2814,7 @@ private:
   // without revisiting this invariant.
   int _epollFd{-1}, _eventFd{-1}, _timerFd{-1};
   std::thread _loop;
+  std::mutex _stopMutex; // serializes concurrent stop() calls
   // Deferred self-destruct deleter (delete-this-at-thread-end). Written and read
   // ONLY on the I/O thread (set in scheduleSelfDestruct pre-detach; run in the
   // loop-lambda epilogue post-loop()); no synchronization — see EngineBase.
